@@ -56,6 +56,11 @@ def documented : List Entry := [
     "obj[argument]: the object is not subscriptable / has no such item"⟩,
   ⟨"environment", "Environment.getitem", 2, attrSignals, ["getattr"], false, .undefined,
     "getattr(obj, str(argument)) after the item lookup failed"⟩,
+  -- (once F15 is repaired by dropping the `try: str(argument)` wrapper, the getattr handler becomes handler #1)
+  ⟨"environment", "Environment.getitem", 1, attrSignals, ["getattr"], false, .undefined,
+    "getattr(obj, str(argument)) after the item lookup failed (numbering after the F15 repair)"⟩,
+  ⟨"sandbox", "SandboxedEnvironment.getitem", 1, attrSignals, ["getattr"], false, .undefined,
+    "sandboxed getattr(obj, str(argument)) after the item lookup failed (numbering after the F15 repair)"⟩,
   ⟨"environment", "Environment.getattr", 0, attrSignals, ["getattr"], false, .fallback,
     "getattr(obj, attribute) failed: try obj[attribute]"⟩,
   ⟨"environment", "Environment.getattr", 1, itemSignals, ["getitem", "hash", "eq", "index"], false, .undefined,
